@@ -87,7 +87,10 @@ Record env := { e_w : nat; e_data : list block; e_l : nat; e_d : nat; e_base : n
 Definition disk_of (e : env) (r : dref) : nat := match r with Cur => e_d e | Last => e_l e | First => O end.
 Definition tab_row (t : tbl) (disk : nat) : list N := match t with TGen => nth disk gfcauchypshufb_rows [] end.
 
-Definition state := (regs * list block)%type.
+(* A store is logged (parity index, absolute byte position, vector), newest first; the parity buffers are
+   never read by these programs, so applying the log to the buffers at the end is exact. *)
+Definition wlog := list (nat * nat * vec).
+Definition state := (regs * wlog)%type.
 
 (* the bytes at a memory operand, as far as wanted (n = 16 for vbroadcasti128, else the register width) *)
 Definition rd_mem (e : env) (n : nat) (o : operand) : vec :=
@@ -107,22 +110,25 @@ Definition wr_op (e : env) (st : state) (o : operand) (v : vec) : state :=
   match o with
   | Reg n => (upd n v (fst st), snd st)
   | MemScratch k => (upd (scratch_base + k) v (fst st), snd st)
-  | MemPar j off => (fst st, write_par (snd st) j (e_base e + off) v)
+  | MemPar j off => (fst st, (j, (e_base e + off)%nat, v) :: snd st)
   | _ => st
   end.
 
-Definition exec_instr (e : env) (st : state) (i : instr) : state :=
+Definition instr_val (e : env) (s : regs) (i : instr) : vec :=
   let w := e_w e in
-  let s := fst st in
   match i with
-  | Mov d a => wr_op e st d (rd_op e s a)
-  | Store d a => wr_op e st d (rd_op e s a)
-  | Bcast128 d a => wr_op e st d (vbcast w (rd_mem e 16 a))
-  | Bin o d a b => wr_op e st d (vbin w o (rd_op e s a) (rd_op e s b))
-  | SrlW k d a => wr_op e st d (vshift (srl_byte k) w (rd_op e s a))
-  | SllW k d a => wr_op e st d (vshift (sll_byte k) w (rd_op e s a))
+  | Mov d a => rd_op e s a
+  | Store d a => rd_op e s a
+  | Bcast128 d a => vbcast w (rd_mem e 16 a)
+  | Bin o d a b => vbin w o (rd_op e s a) (rd_op e s b)
+  | SrlW k d a => vshift (srl_byte k) w (rd_op e s a)
+  | SllW k d a => vshift (sll_byte k) w (rd_op e s a)
   end.
-Definition exec_block (e : env) (b : list instr) (st : state) : state := fold_left (exec_instr e) b st.
+Definition instr_dst (i : instr) : operand :=
+  match i with Mov d _ | Store d _ | Bcast128 d _ | Bin _ d _ _ | SrlW _ d _ | SllW _ d _ => d end.
+Definition exec_instr (e : env) (st : state) (i : instr) : state := wr_op e st (instr_dst i) (instr_val e (fst st) i).
+(* a block starts with an empty log: the result is (registers, stores of this block) *)
+Definition exec_block (e : env) (b : list instr) (s : regs) : state := fold_left (exec_instr e) b (s, []).
 
 Definition mkenv (p : prog) (data : list block) (l d base : nat) : env :=
   {| e_w := width p; e_data := data; e_l := l; e_d := d; e_base := base |}.
@@ -130,13 +136,20 @@ Definition mkenv (p : prog) (data : list block) (l d base : nat) : env :=
 (* the disks visited by `for (d = l - 1; d >= lo; --d)` *)
 Definition loop_disks (lo l : nat) : list nat := rev (seq lo (l - lo)).
 
+Definition loop_step (p : prog) (data : list block) (l base : nat) (st : state) (d : nat) : state :=
+  let r := exec_block (mkenv p data l d base) (loop_body p) (fst st) in (fst r, snd r ++ snd st).
+
 Definition run_chunk (p : prog) (data : list block) (l : nat) (st : state) (c : nat) : state :=
   let base := (c * step p)%nat in
-  let st1 := exec_block (mkenv p data l l base) (chunk_init p) st in
-  let st2 := fold_left (fun st d => exec_block (mkenv p data l d base) (loop_body p) st) (loop_disks (loop_lo p) l) st1 in
-  exec_block (mkenv p data l O base) (chunk_mid p ++ chunk_fini p) st2.
+  let st1 := exec_block (mkenv p data l l base) (chunk_init p) (fst st) in
+  let st2 := fold_left (loop_step p data l base) (loop_disks (loop_lo p) l) st1 in
+  let st3 := exec_block (mkenv p data l O base) (chunk_mid p ++ chunk_fini p) (fst st2) in
+  (fst st3, snd st3 ++ snd st2 ++ snd st).
 
 Definition nchunks (size stp : nat) : nat := ((size + stp - 1) / stp)%nat.
+
+Definition apply_log (g : wlog) (pm : list block) : list block :=
+  fold_right (fun x pm => write_par pm (fst (fst x)) (snd (fst x)) (snd x)) pm g.
 
 Fixpoint memcpy_par (k size : nat) (src : list N) (pm : list block) : list block :=
   match k, pm with
@@ -150,11 +163,7 @@ Definition exec_prog (p : prog) (data : list block) (size : nat) (s0 : regs) (ol
   match nd1_special p, l with
   | Some k, O => memcpy_par k size (nth O data []) old
   | _, _ =>
-      let st0 := exec_block (mkenv p data l l O) (prologue p) (s0, old) in
-      snd (fold_left (run_chunk p data l) (seq 0 (nchunks size (step p))) st0)
+      let st0 := exec_block (mkenv p data l l O) (prologue p) s0 in
+      apply_log (snd (fold_left (run_chunk p data l) (seq 0 (nchunks size (step p))) st0)) old
   end.
 
-(* entry point of the extracted interpreter: look a generated program up by position *)
-Definition run_named (progs : list (option prog)) (k : nat) (data : list block) (size : nat) (s0 : regs) (old : list block)
-  : option (list block) :=
-  match nth k progs None with Some p => Some (exec_prog p data size s0 old) | None => None end.
